@@ -183,7 +183,18 @@ def bounded(rep, tier):
         'uclass': '@classmethod\n    def uc(cls, x):\n        return x',
         'uprop': '@property\n    def up(self):\n        return 1',
         'setonly': 'def _set_w(self, v: int) -> None:\n        self._w = v\n    w = property(None, _set_w)',      # a write-only property (no getter) is legal
+        'docprop': 'def _get_t(self) -> int:\n        """(internal getter doc)"""\n        return 1\n    def _set_t(self, v: int) -> None:\n        pass\n    t = property(_get_t, _set_t, None, "Public doc of t")\n    wo = property(None, _set_t, doc="Public doc of wo")',   # explicit docstrings
     }
+    def meta(v):
+        """what the property says every member keeps: descriptor kind, name, docstring, signature"""
+        if isinstance(v, property): return ('property', v.__doc__, tuple(meta(x) if x is not None else None for x in (v.fget, v.fset, v.fdel)))
+        if isinstance(v, (classmethod, staticmethod)): return (type(v).__name__, meta(v.__func__))
+        if isinstance(v, type(lambda: 0)):
+            # parameters by name, kind and default (annotations are compared as present/absent: beartype resolves stringified ones in place)
+            try: sig = tuple((q.name, q.kind.name, repr(q.default), q.annotation is not q.empty) for q in inspect.signature(v).parameters.values())
+            except Exception as e: sig = type(e).__name__
+            return ('function', v.__name__, v.__qualname__, v.__doc__, sig)
+        return None
     cases = 0; fails = []
     combos = []
     names = list(MEMBERS)
@@ -258,6 +269,14 @@ def bounded(rep, tier):
                         try: inst.me(object()); fails.append((combo, nested_mode, f'me(object()) {lab}: accepted'))
                         except BeartypeCallHintViolation: pass
                         except Exception as e: fails.append((combo, nested_mode, f'me(object()) {lab}: {type(e).__name__}'))
+                U = build(); CU = U.C if nested_mode else U
+                for nm_, vu in vars(CU).items():
+                    mu = meta(vu)
+                    if mu is None: continue
+                    cases += 1
+                    for lab, Cx in (('class-decorated', CA), ('inner-class-decorated', CB)):
+                        mx = meta(vars(Cx).get(nm_))
+                        if mx != mu: fails.append((combo, nested_mode, f'metadata {type(vu).__name__}: member {nm_} {lab}: kind/name/docstring/signature {mx} differ from the undecorated {mu}'))
                 if 'plain' in combo and dname != 'O0':
                     f = vars(CA)['m']
                     if getattr(f, '__wrapped__', None) is None or f.__name__ != 'm' or f.__doc__ != 'doc m' or str(inspect.signature(f)) != '(self, x: int) -> int': fails.append((combo, nested_mode, 'm: __wrapped__/name/doc/signature not preserved'))
@@ -361,9 +380,81 @@ def decorcore_part(rep):
                         where=f'{qual} calls the {e[1]} decorator with the very object, configuration and every keyword it was given (a member keeps its class stack under every configuration)')
         if not n: rep.error(f'C13.decorcore.{qual}: no callee call seen (vacuous)')
 
+def descriptor_part(rep):
+    """function mode on the two descriptor decorators.  Contract (from the property statement):
+      property: the result is the SAME descriptor when no accessor changed; otherwise a property whose getter/setter/deleter are the decorated
+        accessors of the original (an absent accessor stays absent), whose docstring is the ORIGINAL descriptor's docstring, built with every
+        keyword forwarded to the accessor decorator;
+      classmethod/staticmethod: the same descriptor when the wrappee is a class or is returned unchanged; otherwise a descriptor of the SAME
+        kind (descriptor.__class__) around the decorated wrappee."""
+    from pyvc import funcmode, model as M, discharge
+    from pyvc.symx import Exec, St, VObj, VPy, VBool
+    import beartype._decor._nontype._builtin.decorbuiltindescriptor as mod
+    import beartype._decor._nontype.decornontype as _nt, beartype._decor.decorcore as _dc
+    uni = M.Universe(); uni.const(type); NONE = uni.const(None)
+    D = z3.Const('descriptor', M.Obj); KW = z3.Const('extra_kw', M.Obj)
+    DEC = z3.Function('decorated', M.Obj, M.Obj)
+    def F(n): return z3.Const(f'H_{n}', z3.ArraySort(M.Obj, M.Obj))
+    def m_dec(ex, s, f, a, kw, w):
+        kw = dict(kw) if not isinstance(kw, dict) else kw
+        x = a[0] if a else kw.get('func', kw.get('obj'))
+        fw = isinstance(kw.get('other_kw'), VObj) and kw['other_kw'].t.eq(KW) and set(kw) <= {'func', 'obj', 'other_kw'}
+        return [(s.ev('decorate', ex.obj(x), fw), VObj(DEC(ex.obj(x))))]
+    def m_property(ex, s, f, a, kw, w):
+        kw = dict(kw) if not isinstance(kw, dict) else kw
+        names = ('fget', 'fset', 'fdel', 'doc'); got = {}
+        for i, x in enumerate(a): got[names[i]] = x
+        got.update({k: v for k, v in kw.items() if k in names})
+        return [(s.ev('property', {k: ex.obj(v) for k, v in got.items()}, set(kw) - set(names)), VObj(M.fresh('new_property')))]
+    # ---- property
+    fobj, node, _ = funcmode.load('beartype/_decor/_nontype/_builtin/decorbuiltindescriptor.py', 'beartype_descriptor_decorator_builtin_property')
+    ex = Exec(uni, dict(mod.__dict__, beartype_func=_nt.beartype_func), call_model={_nt.beartype_func: m_dec, property: m_property}, name='decorate_property'); ex.fields_mode = True
+    outs = ex.run_function(node, St(), (VObj(D),), {'other_kw': VObj(KW)}, fobj)
+    pr = discharge.Prover(uni.axioms()); n = 0
+    acc = {k: z3.Select(F(k), D) for k in ('fget', 'fset', 'fdel')}; DOC = z3.Select(F('__doc__'), D)
+    want = {k: z3.If(acc[k] == NONE, NONE, DEC(acc[k])) for k in acc}
+    unchanged = z3.And(*[want[k] == acc[k] for k in acc])
+    for i, (s_, v) in enumerate(outs):
+        n += 1; props = [e for e in s_.events if e[0] == 'property']; decs = [e for e in s_.events if e[0] == 'decorate']
+        for e in decs:
+            rep.add(f'C13.descriptor.property.post.forwards_keywords.path{i}', 'proved' if e[2] else 'refuted', backend='structural', where='every keyword (configuration, class stack) reaches the accessor decorator')
+        if not props:
+            r = pr.prove(list(s_.pc), z3.And(ex.obj(v) == D, unchanged))
+            rep.add(f'C13.descriptor.property.post.identity_only_if_unchanged.path{i}', r.status, time=r.time, backend=r.backend, reason=r.reason, where='the descriptor itself is returned only when no accessor was replaced')
+            continue
+        got = props[-1][1]
+        r = pr.prove(list(s_.pc), z3.And(*[got.get(k, NONE) == want[k] for k in acc]))
+        rep.add(f'C13.descriptor.property.post.accessors.path{i}', r.status, time=r.time, backend=r.backend, reason=r.reason, where='getter, setter and deleter of the new property are the decorated accessors of the original; an absent accessor stays absent')
+        r = pr.prove(list(s_.pc), got.get('doc', NONE) == DOC)
+        rep.add(f'C13.descriptor.property.post.docstring.path{i}', r.status, time=r.time, backend=r.backend, reason=r.reason, where="the new property is built with the original descriptor's docstring (not the getter's)")
+        rep.add(f'C13.descriptor.property.post.returns_new_property.path{i}', 'proved' if (isinstance(v, VObj) and len(props) == 1 and not props[-1][2]) else 'refuted', backend='structural')
+    if n < 2: rep.error('C13.descriptor.property: fewer than 2 completing paths (vacuous)')
+    # ---- classmethod / staticmethod
+    fobj, node, _ = funcmode.load('beartype/_decor/_nontype/_builtin/decorbuiltindescriptor.py', 'beartype_descriptor_decorator_builtin_class_or_static_method')
+    W = z3.Const('wrappee', M.Obj)
+    def m_unwrap(ex, s, f, a, kw, w): return [(s.ev('unwrap', ex.obj(a[0])), VObj(W))]
+    def m_kind(ex, s, f, a, kw, w): return [(s.ev('rebuild', ex.obj(f.self_) if hasattr(f, 'self_') else None, tuple(ex.obj(x) for x in a)), VObj(M.fresh('new_descriptor')))]
+    ex = Exec(uni, dict(mod.__dict__, beartype_object=_dc.beartype_object), call_model={_dc.beartype_object: m_dec, mod.unwrap_func_class_or_static_method_once: m_unwrap, '.__class__': m_kind}, name='decorate_cls_static'); ex.fields_mode = True
+    ex.method_names = {'__class__'}
+    outs = ex.run_function(node, St(), (VObj(D),), {'other_kw': VObj(KW)}, fobj)
+    n = 0
+    for i, (s_, v) in enumerate(outs):
+        n += 1; reb = [e for e in s_.events if e[0] == 'rebuild']; unw = [e for e in s_.events if e[0] == 'unwrap']
+        ok_unw = len(unw) == 1
+        rep.add(f'C13.descriptor.cls_static.post.unwraps_the_descriptor.path{i}', 'proved' if ok_unw else 'refuted', backend='structural')
+        if not reb:
+            r = pr.prove(list(s_.pc), z3.And(ex.obj(v) == D, z3.Or(M.inst(W, uni.const(type)), DEC(W) == W)))
+            rep.add(f'C13.descriptor.cls_static.post.identity_only_if_unchanged.path{i}', r.status, time=r.time, backend=r.backend, reason=r.reason, where='the descriptor itself is returned only when it wraps a class or its wrappee was returned unchanged')
+        else:
+            for e in [e for e in s_.events if e[0] == 'decorate']:
+                rep.add(f'C13.descriptor.cls_static.post.forwards_keywords.path{i}', 'proved' if e[2] else 'refuted', backend='structural')
+            r = pr.prove(list(s_.pc), z3.And(len(reb[-1][2]) == 1, reb[-1][2][0] == DEC(W)) if len(reb[-1][2]) == 1 else z3.BoolVal(False))
+            rep.add(f'C13.descriptor.cls_static.post.same_kind_around_decorated_wrappee.path{i}', r.status, time=r.time, backend=r.backend, reason=r.reason, where='descriptor.__class__(decorated wrappee): the descriptor kind is kept')
+    if n < 2: rep.error('C13.descriptor.cls_static: fewer than 2 completing paths (vacuous)')
+
 def main(tier, seed):
     rep = report.Report('C13', tier, seed, 'other', f'./check C13 --tier {tier}')
-    for fn in (func_part, type_part, decorcore_part):
+    for fn in (func_part, type_part, decorcore_part, descriptor_part):
         try: fn(rep)
         except Exception: rep.error(f'C13 {fn.__name__}: ' + traceback.format_exc()[-2500:])
     try: bounded(rep, tier)
